@@ -170,6 +170,49 @@ func runC06(c *Ctx) {
 			do(genPacket(c.Rng, k, f, i%20 == 7))
 		}
 	}
+	// attribute blocks on their own (what OPEN / SETSTAT / FSETSTAT carry and what ATTRS and NAME replies are made of): every
+	// flag subset with 0 to 3 extended pairs, encoded by codec A, decoded by the attribute decoders of both codecs (kinds
+	// attrsA / attrsB, compared with the model's attrs_dec); oracle: the decoded block is the one that was encoded, with
+	// every extended pair in its place and nothing left over
+	for rep := 0; rep < 1+per/20; rep++ {
+		for _, f := range flagSubsets {
+			a := genAttrs(c.Rng, f)
+			for len(a.Ext) < rep%4 && f&0x80000000 != 0 {
+				a.Ext = append(a.Ext, [2]string{genStr(c.Rng), genStr(c.Rng)})
+			}
+			enc, err := sftp.VerifEncA(&sftp.VerifPacket{Kind: "attrs", ID: 1, Attrs: a})
+			if err != nil || len(enc) < 9 {
+				continue
+			}
+			blk := append(append([]byte(nil), enc[9:]...), byte(rep), 0xee) // two trailing bytes that are not part of the block
+			for _, which := range []string{"attrsA", "attrsB"} {
+				var d *sftp.VerifAttrs
+				var rest []byte
+				var ek string
+				if which == "attrsA" {
+					d, rest, ek, _ = sftp.VerifUnmarshalAttrsA(blk)
+				} else {
+					d, rest, ek, _ = sftp.VerifUnmarshalAttrsB(blk)
+				}
+				n := c.Case(which, kvh("b", blk))
+				if f != 0 {
+					c.NT(n)
+				}
+				c.Stat("attrblock_" + which)
+				if d == nil {
+					c.Obs(n, "res=err:"+ek)
+					c.Oracle(n, false, fmt.Sprintf("%s cannot decode a block codec A encoded (flags %x, %d extended pairs): %s", which, f, len(a.Ext), ek))
+					continue
+				}
+				c.Obs(n, "res="+canonAttrs(d)+"/"+hexs(rest))
+				if canonAttrs(d) != canonAttrs(a) || len(rest) != 2 {
+					c.Oracle(n, false, fmt.Sprintf("%s: block with flags %x and %d extended pairs decodes to %s with %d bytes left over (2 expected)", which, f, len(a.Ext), truncs(canonAttrs(d)), len(rest)))
+				} else {
+					c.Oracle(n, true, "")
+				}
+			}
+		}
+	}
 }
 
 func extName(p *sftp.VerifPacket) string {
